@@ -455,7 +455,30 @@ impl Payload for N40 {
     }
 }
 
-pub const CLASSES: [&str; 12] = ["Z0", "ZA", "S1", "S4", "P8", "PB", "L16", "L40", "LS", "N4", "N8", "N40"];
+/// larger than a pointer AND over-aligned (32), with drop glue
+#[repr(C, align(32))]
+pub struct A32 {
+    pub tag: u64,
+    pub pat: u64,
+    pub sum: u64,
+}
+impl Payload for A32 {
+    const NAME: &'static str = "A32";
+    const UNIQUE: bool = true;
+    fn make(tag: u64, pat: u64) -> Self {
+        ledger().on_make(tag);
+        A32 { tag, pat, sum: hash64(tag ^ pat ^ 0x32) }
+    }
+    fn tag(&self) -> u64 {
+        self.tag
+    }
+    fn ok(&self) -> bool {
+        self.sum == hash64(self.tag ^ self.pat ^ 0x32) && (self as *const A32 as usize) % 32 == 0
+    }
+}
+ledger_drop!(A32);
+
+pub const CLASSES: [&str; 13] = ["Z0", "ZA", "S1", "S4", "P8", "PB", "L16", "L40", "LS", "N4", "N8", "N40", "A32"];
 
 /// Runs `$f::<T>($args)` for the class named `$name`.
 #[macro_export]
@@ -474,6 +497,7 @@ macro_rules! with_class {
             "N4" => $f::<$crate::payload::N4>($($a),*),
             "N8" => $f::<$crate::payload::N8>($($a),*),
             "N40" => $f::<$crate::payload::N40>($($a),*),
+            "A32" => $f::<$crate::payload::A32>($($a),*),
             other => panic!("unknown payload class {}", other),
         }
     };
